@@ -1,9 +1,211 @@
+/-
+  Oracle.C15 — for every harness line
+      <pattern hex|-> <subject hex|-> <init> = <implementation fields…>
+  prints
+      A <fields> B <fields> X nt=<0|1> bt=<n> flags=<…>
+  A = what `Spec.LuaPattern` (the manual) prescribes (`?` where the manual leaves it open),
+  B = what the algorithmic mirror (`Model.PatBuild/PatMatch/Gsub`) computes.
+  Fields: new mfs m find findp match gmatch gsub gsub2 (see harness/cmd/c15/main.go).
+  The functions called here are the ones `Props/C15.lean` is about.
+-/
 import Oracle.Proto
+import GoluaVerif.Spec.LuaPattern
+import GoluaVerif.Model.Gsub
 namespace Oracle.C15
+open GoluaVerif GoluaVerif.Spec GoluaVerif.Model
 
-/-- placeholder: the oracle driver for C15 is not built yet -/
+def machineFuel : Nat := 20000000
+def goBudget : Nat := 1099511627776   -- 2^40, as in the harness
+
+def hexOfList (l : List UInt8) : String := l.foldl (fun s x => s ++ Oracle.hexOfNat x.toNat 2) ""
+
+def showVal : LuaPattern.LVal → String
+  | .nil => "n"
+  | .int n => "i" ++ toString n
+  | .str b => "s" ++ hexOfList b
+
+def showVals (vs : List LuaPattern.LVal) : String :=
+  if vs.isEmpty then "-" else ",".intercalate (vs.map showVal)
+
+def showResA : LuaPattern.Res → String
+  | .error => "E"
+  | .unspecified => "?"
+  | .vals vs => showVals vs
+
+def showResB : Gsub.LRes → String
+  | .error _ => "E"
+  | .replError => "E"
+  | .panic _ => "P"
+  | .vals vs => showVals vs
+  | .outOfFuel => "fuel"
+
+def showCapA : LuaPattern.Cap → String
+  | .closed a b => s!"{a}:{b}"
+  | .position p => s!"{p}:-1"
+  | .opened a => s!"{a}:-1"
+  | .unset => "0:0"
+
+def showMatchA (pat? : Except LuaPattern.PErr LuaPattern.Pat) (r : LuaPattern.Pat → Option LuaPattern.MatchRes) : String :=
+  match pat? with
+  | .error .malformed => "-"
+  | .error .unspecified => "?"
+  | .ok pat =>
+    match r pat with
+    | none => "nil"
+    | some m => ",".intercalate (s!"{m.start}:{m.stop}" :: m.caps.map showCapA)
+
+def showGoB (r : PatMatch.GoResult) : String :=
+  if r.outOfFuel then "fuel" else
+  let caps := match r.captures with
+    | none => "nil"
+    | some cs => ",".intercalate (cs.map fun (c : Capture) => s!"{c.start}:{c.stop}")
+  s!"{caps}/{r.used}"
+
+def errKind : BErr → String
+  | .malformed => "malformed"
+  | .unfinishedCapture => "unfinished"
+  | .invalidPatternCapture => "invalidcapture"
+  | .tooComplex => "toocomplex"
+  | .invalidCaptureIdx n => s!"capidx{n}"
+  | .invalidPct => "pct"
+  | .goPanic _ => "P"
+  | .fuel => "fuel"
+
+def hasInvertedRange (pat : LuaPattern.Pat) : Bool :=
+  let clsBad : LuaPattern.Cls → Bool
+    | .set _ es => es.any fun e => match e with
+      | .range lo hi => lo > hi
+      | _ => false
+    | _ => false
+  pat.items.any fun it => match it with
+    | .char c _ => clsBad c
+    | .frontier c => clsBad c
+    | _ => false
+
+/-- flags describing the model's gsub run: `rej` = an empty match was rejected (and still counted),
+    `eo` = something was substituted but the output so far is empty -/
+def gsubFlags (s : Array UInt8) (P? : Except BErr Pattern) (repl : List UInt8) (n : Option Nat) (tag : String) : List String :=
+  match P? with
+  | .ok P =>
+    match Gsub.gsubRun machineFuel s P repl n with
+    | .done st =>
+      (if st.matchCount > st.accepted.length then ["rej" ++ tag] else []) ++
+      (if st.wrote && st.out.isEmpty then ["eo" ++ tag] else [])
+    | _ => []
+  | _ => []
+
+def handle (line : String) : String :=
+  match (line.splitOn " = ").head!.splitOn " " with
+  | [ph, sh, initS] =>
+    let pb? := if ph == "-" then some ByteArray.empty else Oracle.parseHexBytes ph
+    let sb? := if sh == "-" then some ByteArray.empty else Oracle.parseHexBytes sh
+    match pb?, sb?, initS.toInt? with
+    | some pb, some sb, some init =>
+      let p : List UInt8 := pb.toList
+      let pa : Array UInt8 := pb.data
+      let s : Array UInt8 := sb.data
+      let len := s.size
+      let gi? : Option Nat := if 1 ≤ init ∧ init ≤ len + 1 then some (init - 1).toNat else none
+      -- level A
+      let pat? := LuaPattern.parse p
+      let aNew := match pat? with
+        | .ok _ => "ok"
+        | .error .malformed => "err"
+        | .error .unspecified => "?"
+      let aG := match gi? with
+        | some gi =>
+          let mfs := showMatchA pat? (fun pat => LuaPattern.findParsed pat s gi)
+          -- `Match` (search that ignores `^`) is golua API, not the manual: compared only for unanchored patterns
+          let m := match pat? with
+            | .ok pat => if pat.anchorStart then "?" else showMatchA pat? (fun pat => LuaPattern.findParsed pat s gi)
+            | _ => showMatchA pat? (fun _ => none)
+          s!" mfs={mfs} m={m}"
+        | none => ""
+      let aFind := showResA (LuaPattern.strFind s p init false)
+      let aFindp := showResA (LuaPattern.strFind s p init true)
+      let aMatch := showResA (LuaPattern.strMatch s p init)
+      let aGmatch := showResA (LuaPattern.strGmatch s p init)
+      let aGs := if init == 1 then
+          " gsub=" ++ showResA (LuaPattern.strGsub s p [60, 37, 48, 62] none) ++                -- "<%0>"
+          " gsub2=" ++ showResA (LuaPattern.strGsub s p [91, 37, 49, 93] (some 2))              -- "[%1]", 2
+        else ""
+      -- level B
+      let P? := PatBuild.build pa
+      let bNew := match P? with
+        | .ok _ => "ok"
+        | .error e => errKind e
+      let (bG, bt) := match gi?, P? with
+        | some gi, .ok P =>
+          let r1 := PatMatch.matchFromStart P s machineFuel gi goBudget
+          let r2 := PatMatch.matchGo P s machineFuel gi goBudget
+          (s!" mfs={showGoB r1} m={showGoB r2}", r1.backtracks + r2.backtracks)
+        | some _, .error _ => (" mfs=- m=-", 0)
+        | none, _ => ("", 0)
+      let bFind := showResB (Gsub.luaFind machineFuel s pa init false)
+      let bFindp := showResB (Gsub.luaFind machineFuel s pa init true)
+      let bMatch := showResB (Gsub.luaMatch machineFuel s pa init)
+      let bGmatch := showResB (Gsub.luaGmatch machineFuel s pa init)
+      let bGs := if init == 1 then
+          " gsub=" ++ showResB (Gsub.luaGsub machineFuel s pa [60, 37, 48, 62] none) ++
+          " gsub2=" ++ showResB (Gsub.luaGsub machineFuel s pa [91, 37, 49, 93] (some 2))
+        else ""
+      let ir := match pat? with
+        | .ok pat => hasInvertedRange pat
+        | _ => false
+      let quant := match pat? with
+        | .ok pat => pat.ncap > 0 || pat.items.any fun it => match it with
+          | .char _ q => q != .one
+          | _ => false
+        | _ => false
+      let nt := if quant && bt > 0 then 1 else 0
+      let fl := (if ir then ["ir"] else []) ++
+        (if init == 1 then gsubFlags s P? [60, 37, 48, 62] none "" ++ gsubFlags s P? [91, 37, 49, 93] (some 2) "2" else [])
+      let flags := if fl.isEmpty then "-" else ",".intercalate fl
+      s!"A new={aNew}{aG} find={aFind} findp={aFindp} match={aMatch} gmatch={aGmatch}{aGs} " ++
+      s!"B new={bNew}{bG} find={bFind} findp={bFindp} match={bMatch} gmatch={bGmatch}{bGs} " ++
+      s!"X nt={nt} bt={bt} flags={flags}"
+    | _, _, _ => "bad-line"
+  | _ => "bad-line"
+
+/-- replacement-string cases:  `R <pattern hex> <subject hex> <repl hex>` → `A gsub=… B gsub=…` -/
+def handleRepl (line : String) : String :=
+  match (line.splitOn " = ").head!.splitOn " " with
+  | [_, ph, sh, rh] =>
+    let dec (h : String) := if h == "-" then some ByteArray.empty else Oracle.parseHexBytes h
+    match dec ph, dec sh, dec rh with
+    | some pb, some sb, some rb =>
+      let a := showResA (LuaPattern.strGsub sb.data pb.toList rb.toList none)
+      let b := showResB (Gsub.luaGsub machineFuel sb.data pb.data rb.toList none)
+      let fl := gsubFlags sb.data (PatBuild.build pb.data) rb.toList none ""
+      let flags := if fl.isEmpty then "-" else ",".intercalate fl
+      s!"A gsub={a} B gsub={b} X nt=0 bt=0 flags={flags}"
+    | _, _, _ => "bad-line"
+  | _ => "bad-line"
+
+/-- CPU-accounting cases: `W <k> <n>`: the model's step count and charge for `("a?"):rep(k).."c"` on `("b"):rep(n)` -/
+def handleWork (line : String) : String :=
+  match (line.splitOn " = ").head!.splitOn " " with
+  | [_, ks, ns] =>
+    match ks.toNat?, ns.toNat? with
+    | some k, some n =>
+      let p : Array UInt8 := ((List.replicate k ([97, 63] : List UInt8)).flatten ++ [99]).toArray
+      let s : Array UInt8 := (List.replicate n (98 : UInt8)).toArray
+      match PatBuild.build p with
+      | .ok P =>
+        let r := PatMatch.matchFromStart P s machineFuel 0 goBudget
+        s!"B steps={r.steps} used={r.used} match={if r.captures.isSome then 1 else 0}"
+      | .error _ => "bad-line"
+    | _, _ => "bad-line"
+  | _ => "bad-line"
+
 def main (_args : List String) : IO UInt32 := do
-  IO.eprintln "oracle mode c15: not built"
-  return 2
+  let stdin ← IO.getStdin
+  let stdout ← IO.getStdout
+  Oracle.forEachLine stdin fun line => do
+    if line.startsWith "R " then stdout.putStrLn (handleRepl line)
+    else if line.startsWith "budget " then stdout.putStrLn (handleWork line)
+    else stdout.putStrLn (handle line)
+  stdout.flush
+  return 0
 
 end Oracle.C15
